@@ -188,6 +188,7 @@ inductive Edit where
   | setImm (k : String) (v : Imm)          -- `obj[k] = <immutable>` / attribute rebinding to an immutable value
   | push (v : Imm)                          -- `list.append(<immutable>)`
   | pop                                     -- `list.pop()`
+  | delKey (k : String)                     -- `del d[k]`
   | bindNew (k : String) (kind : Kind) (slots : List (String × Src))   -- `obj[k] = <newly created object>`
   | copyList (k : String) (src : ListSrc)   -- `obj[k] = list(<existing list>)`: a new list with the same items
   | copyArray (k : String) (src : ListSrc)  -- `obj[k] = np.array(<values of an existing array>)`: a new array
@@ -230,6 +231,10 @@ def applyEdit (h : Heap) (root l : Loc) : Edit → Heap
   | .pop =>
     match h[l]? with
     | some o => h.set l (withSlots o o.slots.dropLast)
+    | none => h
+  | .delKey k =>
+    match h[l]? with
+    | some o => h.set l (withSlots o (dropKey k o.slots))
     | none => h
   | .bindNew k kind srcs =>
     match h[l]?, resolveSrcs h root srcs with
@@ -279,6 +284,9 @@ inductive Op where
   | append (field : List String) (s : String)              -- `<list at field>.append(s)`
   | popLast (field : List String)                          -- `<list at field>.pop()`
   | dictSet (field : List String) (k v : String)           -- `<dict at field>[k] = v`
+  | dictDel (field : List String) (k : String)             -- `del <dict at field>[k]` (e.g. an alias removed at run time)
+  | useName                                                -- reading through a name (`m[x]`, `m.x`, `x in m`, failed
+      -- look-ups included): no effect on the heap — what a name means is a function of the *current* `aliases` dict
   | traceT (t : Nat) (src : TraceNames) (fresh : Bool) (label : Imm) (n : Nat)   -- `trace_t(t, label, trace=…)`
   | assignFrom (x : String) (src : Loc) (inplace : Bool)   -- whole-variable assignment from ANOTHER object's
       -- variable (the array at `src`): `m.X = other.Y`, `m['X'] = other['Y']`, `m.replace_values(X=other.Y)`,
@@ -328,6 +336,8 @@ def opSteps : Op → List Step
   | .append f s => [⟨f, .push (.str s)⟩]
   | .popLast f => [⟨f, .pop⟩]
   | .dictSet f k v => [⟨f, .setImm k (.str v)⟩]
+  | .dictDel f k => [⟨f, .delKey k⟩]
+  | .useName => []
   | .traceT t src fresh label n =>
     -- `self[TRACE][t] = Trace(list(names))` with `names` = `self.names` / `self.TRACE_VARIABLES` / the caller's list
     (if fresh then
